@@ -346,5 +346,47 @@ def ref_translate(text, dc, dr):
         outs = [outs[0] + a_, outs[1] + b_]
     return outs
 
+TEMPLATES = ['IF(A1="?",B1>=10,C1)', '?A1<>B2', "'?'!A1<=?", '"?"&A1>=?1', 'SUM(?1:B2)<>?', '{1,"?";2,3}<=?', 'A1?>=B2', '?(A1)<>"?"']
+class LexHoles(LexIdentity):
+    """longer formulas with symbolic characters in one or two positions: context-dependent lexing errors (look-ahead windows,
+    byte/char offsets after a multi-byte character, state carried across tokens) need more text than the short fully symbolic bodies"""
+    name = 'lex.holes'
+    def __init__(self, tier):
+        self.templates = TEMPLATES
+        self.doc = 'render(parse_to_tokens("=" + body)) for %d formula templates whose "?" positions hold symbolic characters (all printable ASCII, U+00E9, U+3042), against the same reference lexer' % len(self.templates)
+        self.bounds = {'templates': self.templates, 'hole_alphabet': 'all 95 printable ASCII characters plus U+00E9 and U+3042', 'step_budget': Interp.STEP_BUDGET}
+    def run(self, it, ctx, res):
+        ti = ctx.sym_int('template', 0, len(self.templates) - 1); t = self.templates[next(i for i in range(len(self.templates)) if ctx.branch(ti == i))]
+        cs = []; k = 0
+        for ch in t:
+            if ch != '?': cs.append(ord(ch)); continue
+            c = ctx.sym_int('b%d' % k, 32, 0x3042); k += 1
+            ctx.define(z3.Or(c <= 126, c == 0xE9, c == 0x3042))
+            if ctx.branch(c > 126): ctx.branch(c == 0xE9)
+            cs.append(c)
+        ok, toks, notes = ref_lex(ctx, cs)
+        if not ok:
+            res['illformed'] = True
+            return 'illformed'
+        concretize_ops(ctx, toks)
+        exp, n2 = keep(ctx, toks)
+        cls = [('apostrophe', notes['apostrophe']), ('unary-plus', n2['unary_plus']), ('at-function', notes['at_function'])]
+        info = {'template': t, 'tokens': [x.kind for x in toks]}
+        try:
+            tl = it.call(FML + 'parse_to_tokens::<&str>', [sref(SStr([61] + cs))])
+            out = it.call(FML + 'render', [Ref(Box_(tl))])
+        except Panic as e:
+            self.fail(ctx, res, 'no-panic', str(e), classes=cls, info=info); return
+        except Budget as e:
+            self.fail(ctx, res, 'terminates', str(e), classes=cls, info=info); return
+        self.oblige(ctx, res, 'render(parse(f))==f', chars_eq(out.chars, exp), classes=cls, info=info)
+    def validate(self, it, seed): return 0, []
+    def case_of(self, v):
+        m = v['model']; t = self.templates[m['template']]; k = 0; body = ''
+        for ch in t:
+            if ch == '?': body += chr(m.get('b%d' % k, 97)); k += 1
+            else: body += ch
+        return {'show': {'formula': '=' + body, 'oblig': v['oblig']}, 'formula': '=' + body}
+
 def harnesses(tier):
-    return [LexIdentity(tier), Translate(tier)]
+    return [LexIdentity(tier), LexHoles(tier), Translate(tier)]
